@@ -39,7 +39,7 @@ func c04UnsafeValues(c *core.Ctx) int {
 			return n
 		}
 	}
-	return c.N(40, 300)
+	return c.N(40, 1500)
 }
 
 // c04ComputeDigests evaluates the first n values of every pair (the same
